@@ -62,8 +62,11 @@ def scene_outcome(prog, scene, iterations):
             v = scene.params[s[1]]
             params.append((s[1], int(v) if not isinstance(v, tuple) else tuple(v)))
     cells = []
-    objs = [s for s in prog["stmts"] if s[0] == "object"]  # scene.objects keeps creation order
-    for s, o in zip(objs, scene.objects):
+    objs = [s for s in prog["stmts"] if s[0] == "object"]
+    # (scene.objects lists the ego first, which need not be the first object created: the second
+    # object of a program is recognised by its offset of 0.3 in y)
+    placed = sorted(scene.objects, key=lambda o: float(o.position.y) > 0.15)
+    for s, o in zip(objs, placed):
         x = float(o.position.x) - (0.3 if s[3] else 0.0)
         cells.append(int(round(x / 3)))
     return ("scene", iterations, tuple(params), tuple(cells))
